@@ -421,6 +421,70 @@ func runC17(c *config) {
 			o.Pass("md_corpus")
 		}
 	}
+	// 3b. the same modules with 'distinct' flipped on every numbered definition (added where it was absent,
+	// removed where it was present) and with 'distinct' on all of them: a definition is printed distinct exactly
+	// when it was written distinct, whatever kind of node it is
+	reDef := regexp.MustCompile(`(?m)^!([0-9]+) = (distinct )?!`)
+	for _, f := range files {
+		b, _ := os.ReadFile(f)
+		if !reDef.Match(b) {
+			continue
+		}
+		for variant := 0; variant < 3; variant++ {
+			want := map[string]bool{}
+			src := reDef.ReplaceAllStringFunc(string(b), func(l string) string {
+				sm := reDef.FindStringSubmatch(l)
+				d := sm[2] != ""
+				switch variant {
+				case 1:
+					d = !d
+				case 2:
+					d = true
+				}
+				want[sm[1]] = d
+				if d {
+					return "!" + sm[1] + " = distinct !"
+				}
+				return "!" + sm[1] + " = !"
+			})
+			var text string
+			oc, msg := guard(func() error {
+				m, err := asm.ParseString(f, src)
+				if err != nil {
+					return err
+				}
+				text = m.String()
+				return nil
+			})
+			o.Stat("distinct_variants")
+			if oc != ocOk {
+				// a node kind that may not be distinct (or must be) is the parser's to reject; nothing to compare
+				o.Stat("distinct_variant_rejected")
+				_ = msg
+				continue
+			}
+			bad := ""
+			got := map[string]bool{}
+			for _, sm := range reDef.FindAllStringSubmatch(text, -1) {
+				got[sm[1]] = sm[2] != ""
+			}
+			for id, d := range want {
+				if g, ok := got[id]; !ok {
+					bad = "definition !" + id + " is not printed"
+				} else if g != d {
+					bad = fmt.Sprintf("definition !%s: written distinct=%v, printed distinct=%v", id, d, g)
+				}
+				if bad != "" {
+					break
+				}
+			}
+			if bad != "" {
+				o.Fail("md_corpus", "", bad, map[string]interface{}{"file": f, "variant": variant, "src": src})
+			} else {
+				o.Pass("md_distinct_kept")
+			}
+		}
+	}
 	// 4. constructed: references print the ID of the node they point to
 	m := ir.NewModule()
 	a := &metadata.Tuple{MetadataID: -1}
